@@ -36,6 +36,14 @@ def tokens(key: str) -> Set[str]:
     return set(_ident.findall(key))
 
 
+_var = re.compile(r'(?<![\w.])[A-Za-z_]\w*')
+
+
+def var_tokens(key: str) -> Set[str]:
+    """Identifiers of ``key`` that stand for VARIABLES (not the attribute names after a dot): re-binding the local ``loader`` says nothing about ``ctx.loader``."""
+    return set(_var.findall(key))
+
+
 PURE_BUILTINS = ('callable', 'isinstance', 'issubclass', 'len', 'bool', 'hasattr', 'type', 'id')
 
 
@@ -361,9 +369,11 @@ class FuncFacts:
         out = []
         for a in fs:
             toks = tokens(a[1])
+            vtoks = var_tokens(a[1])
             if a[0] in ('same', 'differ', 'flagdef'):
                 toks = toks | tokens(a[2])
-            if toks & writes or toks & names:
+                vtoks = vtoks | var_tokens(a[2])
+            if toks & writes or vtoks & names:
                 continue
             out.append(a)
         return frozenset(out)
